@@ -273,6 +273,54 @@ def canonical_function(fn_node: ast.FunctionDef, unnest: bool = True) -> ast.Fun
     return f
 
 
+def loops_to_comprehensions(fn_node: ast.AST) -> ast.AST:
+    """A parent-linked clone in which `L = []` directly followed by `for T in IT: [name = expr ...]; L.append(E)` (no else, break, continue
+    or other statement; the intermediate names are read nowhere else) reads `L = [E' for T in IT]`, E' being E over the intermediates.
+    Exact: same elements, same order, same evaluations."""
+    from .srcmodel import set_parents
+    f = clone(fn_node)
+    set_parents(f)
+    changed = False
+    for blk_owner in list(ast.walk(f)):
+        for fld in ('body', 'orelse', 'finalbody'):
+            blk = getattr(blk_owner, fld, None)
+            if not isinstance(blk, list):
+                continue
+            i = 0
+            while i + 1 < len(blk):
+                a_, lp = blk[i], blk[i + 1]
+                i += 1
+                if not (isinstance(a_, ast.Assign) and len(a_.targets) == 1 and isinstance(a_.targets[0], ast.Name)
+                        and isinstance(a_.value, ast.List) and not a_.value.elts and isinstance(lp, ast.For) and not lp.orelse and lp.body):
+                    continue
+                L = a_.targets[0].id
+                *pre, last = lp.body
+                if not (isinstance(last, ast.Expr) and isinstance(last.value, ast.Call) and isinstance(last.value.func, ast.Attribute)
+                        and last.value.func.attr == 'append' and norm(last.value.func.value) == L and len(last.value.args) == 1 and not last.value.keywords):
+                    continue
+                if not all(isinstance(s_, ast.Assign) and len(s_.targets) == 1 and isinstance(s_.targets[0], ast.Name) for s_ in pre):
+                    continue
+                tmp_names = {s_.targets[0].id for s_ in pre}
+                if L in {n.id for n in ast.walk(lp.iter) if isinstance(n, ast.Name)} | {n.id for s_ in pre for n in ast.walk(s_) if isinstance(n, ast.Name)} \
+                        or L in {n.id for n in ast.walk(last.value.args[0]) if isinstance(n, ast.Name)}:
+                    continue
+                outside = [n for n in ast.walk(f) if isinstance(n, ast.Name) and n.id in tmp_names and not any(n is x for x in ast.walk(lp))]
+                if outside:
+                    continue
+                elt = inline_sequential(last.value.args[0], last)
+                comp = ast.ListComp(elt=elt, generators=[ast.comprehension(target=lp.target, iter=lp.iter, ifs=[], is_async=0)])
+                new = ast.Assign(targets=[ast.Name(id=L, ctx=ast.Store())], value=comp)
+                ast.copy_location(new, lp)
+                ast.copy_location(comp, lp)
+                blk[i - 1:i + 1] = [new]
+                changed = True
+    if not changed:
+        return fn_node
+    ast.fix_missing_locations(f)
+    set_parents(f)
+    return f
+
+
 def canonicalise_module(tree: ast.Module) -> None:
     """In place: every function of the module gets its attribute aliases inlined (the continue-guard un-nesting of canonical_function
     is left to the rules that ask for it: several rules are written against the guard-clause form)."""
